@@ -119,6 +119,16 @@ func (s *vfStream[R, S]) send(m *S) error {
 			s.mu.Unlock()
 			return err
 		}
+		if s.clientSide {
+			// grpc-go: once the peer's final status has arrived the client stream is finished and every SendMsg returns
+			// io.EOF - also while messages received before the status are still waiting to be read with RecvMsg
+			select {
+			case <-s.peerDone:
+				s.mu.Unlock()
+				return io.EOF
+			default:
+			}
+		}
 		if !s.stalled {
 			s.sent = append(s.sent, m)
 			cb := s.onSend
